@@ -450,7 +450,7 @@ class Obs:
                 my_string_list.append(my_string)
             print('\n'.join(my_string_list))
 
-    def reweight(self, weight):
+    def reweight(self, weight, **kwargs):
         """Reweight the obs with given rewighting factors.
 
         Parameters
@@ -463,7 +463,7 @@ class Obs:
             the reweighting factor on all configurations in weight.idl and not
             on the configurations in obs[i].idl. Default False.
         """
-        return reweight(weight, [self])[0]
+        return reweight(weight, [self], **kwargs)[0]
 
     def is_zero_within_error(self, sigma=1):
         """Checks whether the observable is zero within 'sigma' standard errors.
